@@ -48,6 +48,8 @@ static const Op* find_op(const char* n) { for (size_t i = 0; i < NOPS; i++) if (
 static void check(ByteSource& in, CaseInfo& ci) {
   Shared sh; size_t big = in.chance(40) ? (size_t)in.range(3600, 4200) : 0;   // FFT-size shared operand: heap temporaries
   for (int i = 0; i < SZ; i++) { mpz_init(sh.z[i]); Int v = gen_int(in, (size_t)expcap(in.scale, 2, 60)); if (i == 0 && big) { Limbs l = limbs_nz(in, big); v = Int::from_limbs(l.data(), big); } mpz_from_int(sh.z[i], v); }
+  // shared modulus of odd limb count in the REDC_n range (101..255 limbs): every thread starts with mpz_powm / mpz_powm_ui modulo it (the "many threads, one modulus" use)
+  bool redc = !big && in.chance(40); if (redc) { size_t n = 101 + 2 * (size_t)in.range(0, 77); Limbs l = limbs_nz(in, n); l[0] |= 1; mpz_from_int(sh.z[1], Int::from_limbs(l.data(), n)); ci.label("shared_modulus_redc_n_odd_size"); }
   for (int i = 0; i < SQ; i++) { mpq_init(sh.q[i]); mpq_set_si(sh.q[i], in.srange(-1000, 1000), in.range(1, 1000)); mpq_canonicalize(sh.q[i]); } for (int i = 0; i < SF; i++) { mpf_init2(sh.f[i], 128); mpf_set_d(sh.f[i], std::ldexp((double)in.srange(-100000, 100000), (int)in.srange(-10, 10))); }
   { gmp_randinit_mt(sh.r); gmp_randseed_ui(sh.r, in.range(0, 1000)); static const unsigned pre[] = {0, 248, 247, 249, 560, 1}; unsigned k = in.flag() ? pre[in.range(0, 5)] : (unsigned)in.range(0, 700); mpz_t t; mpz_init(t); if (k) mpz_urandomb(t, sh.r, 64ull * k); mpz_clear(t); if (k == 248 || k == 560) ci.label("shared_mt_template_buffer_exhausted"); }
   unsigned nt = (unsigned[]){2, 4, 8}[in.range(0, 2)]; size_t len = (size_t)in.range(1, 6 + in.scale / 8); bool same_plan = in.flag();
@@ -59,6 +61,9 @@ static void check(ByteSource& in, CaseInfo& ci) {
       st.sc.u[0] = in.flag() ? in.range(0, 300) : in.u64(); st.sc.u[1] = in.flag() ? in.range(0, 200) : in.u64(); st.sc.u[2] = in.range(0, 40); st.sc.s[0] = in.srange(-300, 300); st.sc.s[1] = 0; st.sc.d = (double)in.srange(-1000, 1000) / 8.0; st.sc.base = (int)in.range(0, 255); st.sc.str = gen_string(in);
       pl.steps.push_back(st); } };
   gen_plan(plans[0]); for (unsigned t = 1; t < nt; t++) { if (same_plan) { plans[t] = plans[0]; plans[t].skew = (unsigned)in.range(0, 20000); } else gen_plan(plans[t]); }
+  if (redc) for (unsigned t = 0; t < nt; t++) { Step st; bool ui = (t & 1) != 0; st.op = find_op(ui ? "mpz_powm_ui" : "mpz_powm"); for (int& x : st.zi) x = 0; for (int& x : st.qi) x = 0; for (int& x : st.fi) x = 0;
+      st.zi[0] = 0; st.zi[1] = 1; if (ui) st.zi[2] = -2; else { st.zi[2] = 2; st.zi[3] = -2; }   /* r = private 0, base = private 1 (12345), exponent = private 2 (12345) or U0 >> 20, modulus = shared 1 */
+      st.sc.u[0] = (uint64_t)in.range(2, 4000) << 20; st.sc.u[1] = st.sc.u[2] = 0; st.sc.s[0] = st.sc.s[1] = 0; st.sc.d = 0; st.sc.base = 10; plans[t].steps.insert(plans[t].steps.begin(), st); }
   ci.label(nt == 2 ? "threads:2" : nt == 4 ? "threads:4" : "threads:8"); if (same_plan) ci.label("same_sequence_in_all_threads"); if (big) ci.label("fft_size_shared_operand"); ci.nontrivial = true;
   ci.d("%u threads x %zu steps%s:", nt, len, same_plan ? " (same plan)" : ""); for (auto& s : plans[0].steps) { ci.d(" %s", s.op ? s.op->name : "gmp_randinit_set(shared template)"); ci.label(s.op ? s.op->name : "gmp_randinit_set_from_shared_template"); }
   // concurrent run first (cold tables), three start skews; then the serial reference
